@@ -69,6 +69,16 @@ def make_pool(seed):
     P['mT'] = S['Tfan4'].build().with_boundaries({'a': np.array([0, 1], dtype=np.int32)}).with_subdomains(
         {'s': np.array([0], dtype=np.int32)})
     P['mT2'] = P['mT'].translated((1., 0.))
+    # an oriented (unsorted-column) mesh and the second-order mesh made from it: constructors that normalise t must copy
+    P['mO'] = P['mM'].oriented()
+    P['mO2'] = fem.MeshTri2.from_mesh(P['mM'].oriented())
+    # tagged meshes of the other cell types
+    P['mKT'] = S['K2'].build().with_subdomains({'s': np.array([0], dtype=np.int32)}).with_boundaries(
+        {'a': np.array([0, 1], dtype=np.int32)})
+    P['mLT'] = S['L3'].build().with_subdomains({'s': np.array([1], dtype=np.int32)}).with_boundaries(
+        {'a': np.array([0], dtype=np.int32)})
+    P['mQT'] = S['Q2'].build().with_subdomains({'s': np.array([1], dtype=np.int32)}).with_boundaries(
+        {'a': np.array([0, 1], dtype=np.int32)})
     P['eP2'] = E.ElementTriP2()
     P['eMor'] = E.ElementTriMorley()
     P['eLpp'] = E.ElementLinePp(3)
@@ -89,24 +99,44 @@ def make_pool(seed):
         A = P['lap'].assemble(b)
         f = P['load'].assemble(b)
         P[nm] = (A, f)
+    # systems returned by the boundary-condition helpers, kept and solved repeatedly
+    from skfem.utils import condense, mpc
+    import scipy.sparse as sp
+    P['cond1'] = condense(*P['sys1'], x=np.array([1., 2., 3., 4.]), D=np.array([0, 2]))
+    P['mpc1'] = mpc(*P['sys1'], S=np.array([0]), M=np.array([1]), T=sp.csr_matrix(np.array([[1.]])), g=np.array([.5]))
     return P
+
+
+MESH_KEYS = ('mA', 'mC', 'mB', 'mQ', 'mL', 'mT', 'mT2', 'mM', 'mO', 'mO2', 'mKT', 'mLT', 'mQT')
+
+
+def tag_arrays(m):
+    out = []
+    for tags in (m.boundaries, m.subdomains):
+        if tags is None:
+            out.append(np.array([-1]))
+        else:
+            for nm in sorted(tags):
+                out.append(np.frombuffer(nm.encode(), dtype=np.uint8))
+                out.append(np.asarray(tags[nm]))
+                ori = getattr(tags[nm], 'ori', None)
+                if ori is not None:
+                    out.append(np.asarray(ori))
+    return out
 
 
 def arrays_of_pool(P):
     out = []
-    for k in ('mA', 'mC', 'mB', 'mQ', 'mL', 'mT', 'mT2', 'mM'):
+    for k in MESH_KEYS:
         m = P[k]
         out += [m.p, m.t]
-        for tags in (m.boundaries, m.subdomains):
-            if tags is None:
-                out.append(np.array([-1]))
-            else:
-                for nm in sorted(tags):
-                    out.append(np.frombuffer(nm.encode(), dtype=np.uint8))
-                    out.append(np.asarray(tags[nm]))
+        out += tag_arrays(m)
     for k in ('sys1', 'sys2'):
         A, f = P[k]
         out += [A.data, A.indices, A.indptr, f]
+    for k in ('cond1', 'mpc1'):
+        A, f, x = P[k][:3]
+        out += [A.data, A.indices, A.indptr, f, x]
     return out
 
 
@@ -122,7 +152,7 @@ def digest_arrays(arrs):
 def cache_signature(P):
     """Canonical digest of every cache-bearing attribute of the pooled objects."""
     h = hashlib.sha1()
-    for k in ('mA', 'mC', 'mB', 'mQ', 'mL'):
+    for k in MESH_KEYS:
         m = P[k]
         names = sorted(n for n in vars(m) if n.startswith('_') and n not in ('_boundaries', '_subdomains'))
         h.update((k + ':' + ','.join(names)).encode())
@@ -280,6 +310,31 @@ def operations():
             import shutil
             shutil.rmtree(d, ignore_errors=True)
     op('mA.save+load', {'mA'})(save)
+    # ---- constructors / conversions fed with the arrays of an unsorted-column mesh -----------------------------------
+    op('MeshTri(mO.p,mO.t)', {'mO'})(lambda P: [fem.MeshTri(P['mO'].p, P['mO'].t).t])
+    op('MeshTri2.from_mesh(mO)', {'mO'})(lambda P: [fem.MeshTri2.from_mesh(P['mO']).t])
+    op('mO.orientation', {'mO'})(lambda P: [P['mO'].orientation(), P['mO'].t, P['mO'].t2f])
+    op('mO.assemble(P2)', {'mO', 'eP2', 'lap'})(lambda P: [P['lap'].assemble(fem.CellBasis(P['mO'], P['eP2'])).toarray()])
+    op('mO2.refined()', {'mO2'})(lambda P: (lambda r: [r.p, r.t])(P['mO2'].refined()))
+    op('mO2.assemble(P2)', {'mO2', 'eP2', 'lap'})(lambda P: [P['lap'].assemble(fem.CellBasis(P['mO2'], P['eP2'])).toarray()])
+    op('mO2.to_dict+t2f', {'mO2'})(lambda P: [P['mO2'].t, P['mO2'].t2f, P['mO2'].facets])
+    # ---- mesh-returning operations on tagged meshes of every cell type --------------------------------------------------
+    def mobs(r):
+        return [r.p, r.t] + tag_arrays(r)
+    for mk, simplex in (('mT', True), ('mKT', True), ('mLT', True), ('mQT', False)):
+        tch = {mk, 'mT2'} if mk == 'mT' else {mk}
+        op(f'{mk}.refined()', tch)(lambda P, mk=mk: mobs(P[mk].refined()))
+        if simplex:
+            op(f'{mk}.refined([0])', tch)(lambda P, mk=mk: mobs(P[mk].refined(np.array([0]))))
+            op(f'{mk}.refined([1,0])', tch)(lambda P, mk=mk: mobs(P[mk].refined(np.array([1, 0]))))
+        op(f'{mk}.restrict([1])', tch)(lambda P, mk=mk: mobs(P[mk].restrict(np.array([1]))))
+        op(f'{mk}.remove_elements([0])', tch)(lambda P, mk=mk: mobs(P[mk].remove_elements(np.array([0]))))
+        op(f'{mk}.scaled+translated', tch)(lambda P, mk=mk: mobs(P[mk].scaled(2.).translated((1.,) * P[mk].p.shape[0])))
+        op(f'{mk}.tags', tch)(lambda P, mk=mk: tag_arrays(P[mk]))
+        op(f'{mk}.Basis(elements=s)', tch)(lambda P, mk=mk: [fem.CellBasis(P[mk], P[mk].elem(), elements='s').dx,
+                                                             fem.FacetBasis(P[mk], P[mk].elem(), facets='a').dx])
+    op('mQT.to_meshtri', {'mQT'})(lambda P: mobs(P['mQT'].to_meshtri()))
+    op('mT2.tags', {'mT', 'mT2'})(lambda P: tag_arrays(P['mT2']))
     # ---- boundary condition helpers on pooled systems ----------------------------------------------------------------
     D = np.array([0, 2])
     xx = np.array([1., 2., 3., 4.])
@@ -290,6 +345,10 @@ def operations():
     for sk in ('s_direct', 's_krylov', 's_pcg', 's_cg'):
         for sysk in ('sys1', 'sys2'):
             op(f'solve({sysk},{sk})', {sysk, sk})(lambda P, sk=sk, sysk=sysk: [solve(*P[sysk], solver=P[sk])])
+    # systems returned by condense / mpc are values too: solving them again gives the same answer
+    op('solve(cond1)', {'cond1'})(lambda P: [solve(*P['cond1'])])
+    op('solve(cond1,s_krylov)', {'cond1', 's_krylov'})(lambda P: [solve(*P['cond1'], solver=P['s_krylov'])])
+    op('solve(mpc1)', {'mpc1'})(lambda P: [solve(*P['mpc1'])])
     return ops
 
 
@@ -340,6 +399,8 @@ def work(item, tier, seed):
     fresh = {}
     for n in names:
         fresh[n] = run(ops[n][0], make_pool(seed))
+        if fresh[n][0] != 'ok' and n == first:
+            out.count('operation_raises_on_fresh_objects:' + n)
     seen = set()
     hists = [[first]]
     depth = 1
